@@ -299,6 +299,30 @@ pub(crate) fn cmd_alias(session: &mut AliasSession, verb: &str, args: &str) -> R
             }
             Ok(out)
         }
+        "alias.out.fill" => {
+            // `n` publishes to `n` distinct topics nobody has used on this connection (z + three base-64 digits from '0'),
+            // reported as a digest: a resolver with room for 65535 aliases cannot be filled one request line at a time
+            let n = req_num::<u32>(&kv, "n")?;
+            let r = session.outbound.as_mut().ok_or("no resolver")?;
+            let (mut none, mut skip, mut zero, mut min, mut max, mut last, mut sum) = (0u32, 0u32, 0u32, u32::MAX, 0u32, 0u32, 0u64);
+            for i in 0..n {
+                let topic : String = [b'z', 48 + (i / 4096 % 64) as u8, 48 + (i / 64 % 64) as u8, 48 + (i % 64) as u8].iter().map(|b| *b as char).collect();
+                let resolution = r.resolve_and_apply_topic_alias(&None, &topic);
+                if resolution.skip_topic { skip += 1; }
+                match resolution.alias {
+                    None => none += 1,
+                    Some(a) => {
+                        let a = a as u32;
+                        if a == 0 { zero += 1; }
+                        min = u32::min(min, a);
+                        max = u32::max(max, a);
+                        last = a;
+                        sum += a as u64;
+                    }
+                }
+            }
+            Ok(format!("res=ok n={} none={} skip={} zero={} min={} max={} last={} sum={}", n, none, skip, zero, if min == u32::MAX { 0 } else { min }, max, last, sum))
+        }
         "alias.in.new" => {
             session.inbound = Some(InboundAliasResolver::new(req_num::<u16>(&kv, "max")?));
             Ok("res=ok".to_string())
